@@ -118,8 +118,10 @@ Checks ==
      THEN << Chk("Decompress", {}, {c \in Lists : c.k \in {"path", "lpath", "steps", "oracles"}}, {"x_index"}) >>
      ELSE <<>>)
   \o << Chk("Shape", {}, {S(n) : n \in Caps \cup Openings \cup {"public_inputs"}}, {}),
-        Chk("Vanishing", {S(n) : n \in {"public_inputs", "op.zs", "op.zs_next", "op.pp", "op.quot"}}, {}, {"betas", "alphas", "zeta"}),
-        Chk("FriShape", {}, {c \in Lists : c.k \in {"commit_cap", "oracles", "leaf", "path", "steps", "evals", "lpath", "final_poly"}}, {}),
+        Chk("Vanishing", {S(n) : n \in {"public_inputs"} \cup Openings}, {}, {"betas", "alphas", "zeta"}),
+        \* the NUMBER of commit-phase caps is read by FriShape only since the repair of C18 defect (6); on the
+        \* pinned tree a changed number was noticed through Fiat–Shamir alone (A.commit_cap1 -> Pow)
+        Chk("FriShape", {}, {c \in Lists : c.k \in {"commit_cap", "commit_caps", "oracles", "leaf", "path", "steps", "evals", "lpath", "final_poly"}}, {}),
         Chk("Pow", {}, {}, {"pow_response"}),
         Chk("NumRounds", {}, {S("rounds")}, {}) >>
   \o RoundChecks(0) \o RoundChecks(1)
